@@ -45,7 +45,7 @@ def step_obligations(prefix, kinds, tier, maxd, maxc, symflags=False, free=False
             tag = big if region is None else big + (" [known finding %s %s]" % (region[0], "isolated" if region[1] == "in" else "subtracted"))
             obs.append(vf.CH(f"{prefix} step {fam} kind={k} nargs={na} |defs|<={maxd} |classes|<={maxc}{tag}", "step.py",
                              dict(KIND=k, MAXD=maxd, MAXC=maxc, NCP=(na * al) if symargs else 0, NA=na if symargs else 0, CARGS=None if symargs else PLACEHOLDER[:na],
-                                  ALEN=al, CASES=(0, 1, 2) if k != "@other" else (0,), SYMFLAGS=symflags, FREE=free, SYMKW=symkw, REGION=region, DEEPD=deepd, DEEPC=deepc, PREARGS=tuple(preargs), NAMELEN=nl, TL=tl, DL=dl, SPECIAL=special,
+                                  ALEN=al, CASES=(0, 1, 2) if k != "@other" else (0,), SYMFLAGS=symflags, FREE=free, SYMKW=symkw, BLANKDOC=symflags, REGION=region, DEEPD=deepd, DEEPC=deepc, PREARGS=tuple(preargs), NAMELEN=nl, TL=tl, DL=dl, SPECIAL=special,
                                   NT=tup(nl if k == "@other" else 1), FT=tup(3 + tl + dl if free else 1)),
                              timeout=timeout or (300 if quick else 1800), encodes=STEP_ENC,
                              symbolic="abstract pre-state sigma (shape of the definition and class stacks, each frame entry or none, "
